@@ -29,17 +29,64 @@ import (
 	"strings"
 )
 
+// vreader delivers the text the ways an io.Reader may: 1: one byte per call; 2: everything at once TOGETHER with io.EOF;
+// 3: three bytes per call with a zero-byte read (0, nil) before each; 4: seven bytes per call, the last piece together
+// with io.EOF.
+type vreader struct {
+	data        []byte
+	mode, calls int
+}
+
+func (r *vreader) Read(p []byte) (int, error) {
+	r.calls++
+	if len(p) == 0 {
+		return 0, nil
+	}
+	if r.mode == 3 && r.calls%%2 == 1 {
+		return 0, nil
+	}
+	if len(r.data) == 0 {
+		return 0, io.EOF
+	}
+	k := len(p)
+	switch r.mode {
+	case 1:
+		k = 1
+	case 3:
+		k = 3
+	case 4:
+		k = 7
+	}
+	if k > len(p) {
+		k = len(p)
+	}
+	if k > len(r.data) {
+		k = len(r.data)
+	}
+	copy(p, r.data[:k])
+	r.data = r.data[k:]
+	if len(r.data) == 0 && (r.mode == 2 || r.mode == 4) {
+		return k, io.EOF
+	}
+	return k, nil
+}
+
 // VerifScan tokenises text with the emitted lexer (half size n > 0: newInput directly; n == 0: New) and prints
-// one line per token and a final line.
+// one line per token and a final line. n / 100000 selects how the reader delivers the text.
 func VerifScan(w io.Writer, text string, n int) {
 	defer func() {
 		if p := recover(); p != nil {
 			fmt.Fprintf(w, "PANIC %%v\n", p)
 		}
 	}()
+	var src io.Reader = strings.NewReader(text)
+	if mode := n / 100000; mode > 0 {
+		src = &vreader{data: []byte(text), mode: mode}
+	}
+	n %%= 100000
 	var l *Lexer
 	if n > 0 {
-		in, err := newInput("f", strings.NewReader(text), n)
+		in, err := newInput("f", src, n)
 		if err != nil {
 			if errors.Is(err, io.EOF) {
 				fmt.Fprintf(w, "EOF\n")
@@ -51,7 +98,7 @@ func VerifScan(w io.Writer, text string, n int) {
 		l = &Lexer{in: in}
 	} else {
 		var err error
-		l, err = New("f", strings.NewReader(text))
+		l, err = New("f", src)
 		if err != nil {
 			if errors.Is(err, io.EOF) {
 				fmt.Fprintf(w, "EOF\n")
@@ -298,6 +345,7 @@ type job struct {
 	p    *prog
 	n    int
 	text string
+	mode int // how the io.Reader delivers the text (0: in one piece; see vreader in the helper)
 }
 
 func main() {
@@ -404,7 +452,7 @@ func main() {
 					if half == 0 && len(buf) > maxLen-1 {
 						continue
 					}
-					jobs = append(jobs, job{p, half, text})
+					jobs = append(jobs, job{p, half, text, 0})
 				}
 			}
 			if n == 0 {
@@ -434,11 +482,49 @@ func main() {
 					continue
 				}
 				for _, filler := range []string{" ", "\n"} {
-					jobs = append(jobs, job{p, 0, s[0] + strings.Repeat(filler, pad) + s[1]})
+					jobs = append(jobs, job{p: p, n: 0, text: s[0] + strings.Repeat(filler, pad) + s[1]})
 					if !r.Quick() {
-						jobs = append(jobs, job{p, 0, strings.Repeat(filler, pad) + s[0] + " " + s[1] + "\n"})
+						jobs = append(jobs, job{p: p, n: 0, text: strings.Repeat(filler, pad) + s[0] + " " + s[1] + "\n"})
 					}
 				}
+			}
+		}
+	}
+	// the reader side: the same token streams whatever way the io.Reader delivers the text - byte by byte, the last piece
+	// together with io.EOF, zero-byte reads in between, pieces that do not divide the buffer half - for every short text
+	// with the tiny halves and for texts ending around the real half size
+	for pi, p := range progs {
+		if !p.OK() {
+			continue
+		}
+		var short []job
+		for _, j := range jobs {
+			if j.p == p && j.mode == 0 && (j.n == 4 || j.n == 0) && len(j.text) <= 3 {
+				short = append(short, j)
+			}
+		}
+		for _, j := range short {
+			for mode := 1; mode <= 4; mode++ {
+				if r.Quick() && (pi+mode)%2 == 0 && j.n == 4 {
+					continue
+				}
+				jobs = append(jobs, job{p, j.n, j.text, mode})
+			}
+		}
+		word := ""
+		for _, w := range []string{"ab", "if", "le", "42", "=", "+", "x1", "a", "z"} {
+			if res := p.tokenize(w); res.errLine == 0 && len(res.toks) == 1 {
+				word = w
+				break
+			}
+		}
+		if word == "" {
+			continue
+		}
+		for _, total := range []int{4094, 4095, 4096, 4097, 8191, 8192, 8193, 8199} {
+			text := strings.Repeat(" ", total-2*len(word)-1) + word + " " + word
+			for mode := 2; mode <= 4; mode++ {
+				jobs = append(jobs, job{p, 0, text, mode})
 			}
 		}
 	}
@@ -468,9 +554,9 @@ func main() {
 				texts = append(texts, word+cs, cs+word, word+cs+word, word+" "+cs+" "+word, word+"\n"+cs+word+"\n", word+cs+cs+word)
 			}
 			for _, text := range texts {
-				jobs = append(jobs, job{p, 0, text})
+				jobs = append(jobs, job{p, 0, text, 0})
 				if res := p.tokenize(text); res.maxKept <= 7 {
-					jobs = append(jobs, job{p, 8, text})
+					jobs = append(jobs, job{p, 8, text, 0})
 				}
 			}
 		}
@@ -498,8 +584,8 @@ func main() {
 					if pad < 0 {
 						continue
 					}
-					jobs = append(jobs, job{p, 0, strings.Repeat(" ", pad) + word + mb + word})
-					jobs = append(jobs, job{p, 0, strings.Repeat("\n", pad) + word + mb + " " + word + "\n"})
+					jobs = append(jobs, job{p: p, n: 0, text: strings.Repeat(" ", pad) + word + mb + word})
+					jobs = append(jobs, job{p: p, n: 0, text: strings.Repeat("\n", pad) + word + mb + " " + word + "\n"})
 				}
 			}
 			for _, half := range []int{4, 5, 8} {
@@ -510,7 +596,7 @@ func main() {
 					for _, text := range []string{strings.Repeat(" ", pad) + word + mb + word, strings.Repeat(" ", pad) + word + " " + mb + mb + word} {
 						// only texts whose longest run plus look-ahead fits in one half
 						if res := p.tokenize(text); res.maxKept <= half-1 {
-							jobs = append(jobs, job{p, half, text})
+							jobs = append(jobs, job{p, half, text, 0})
 						}
 					}
 				}
@@ -570,8 +656,8 @@ func main() {
 				if r.Quick() && (pi+fi)%2 != 0 && l > 4200 {
 					continue
 				}
-				jobs = append(jobs, job{p, 0, word + f(l) + word + "\n" + word})
-				jobs = append(jobs, job{p, 0, f(l) + word})
+				jobs = append(jobs, job{p: p, n: 0, text: word + f(l) + word + "\n" + word})
+				jobs = append(jobs, job{p: p, n: 0, text: f(l) + word})
 			}
 			for _, half := range []int{4, 5, 8} {
 				if len(word)+1 > half-1 {
@@ -580,7 +666,7 @@ func main() {
 				for l := 1; l <= 5*half+1; l++ {
 					for _, text := range []string{word + f(l) + word + "\n" + word, f(l) + word + f(l), word + f(l) + f(3)} {
 						if res := p.tokenize(text); res.maxKept <= half-1 {
-							jobs = append(jobs, job{p, half, text})
+							jobs = append(jobs, job{p, half, text, 0})
 						}
 					}
 				}
@@ -636,7 +722,7 @@ func main() {
 			defer func() { <-sem }()
 			var stdin bytes.Buffer
 			for _, j := range jobs[st:end] {
-				fmt.Fprintf(&stdin, "%s %d %s\n", j.p.Name, j.n, strconv.Quote(j.text))
+				fmt.Fprintf(&stdin, "%s %d %s\n", j.p.Name, j.n+100000*j.mode, strconv.Quote(j.text))
 			}
 			results[i].out, results[i].err = emitted.Run(bin, stdin.Bytes())
 		}(i, st, end)
@@ -674,7 +760,7 @@ func main() {
 				} else {
 					short = strconv.Quote(short)
 				}
-				r.Report("", fmt.Sprintf("%s, buffer half %d, text %s: %s\n%s", j.p.Name, j.n, short, d, j.p.SpecText), map[string]any{"Program": j.p.Name, "Half": j.n, "Text": j.text})
+				r.Report("", fmt.Sprintf("%s, buffer half %d, reader mode %d, text %s: %s\n%s", j.p.Name, j.n, j.mode, short, d, j.p.SpecText), map[string]any{"Program": j.p.Name, "Half": j.n, "Text": j.text, "Mode": j.mode})
 			}
 			if (start+k)%50021 == 0 {
 				r.Sample(map[string]any{"program": j.p.Name, "half": j.n, "text": j.text, "driver_output": lines})
